@@ -179,30 +179,34 @@ def _make_writable(root: str):
                 pass
 
 
-def _chfix_hash_contract():
-    """Tool work-around (CrossHair 0.0.110; worker process only, no-op elsewhere) - the same as harness/_C15_lib's.
+def _chfix_builtin_contracts():
+    """Tool work-around (CrossHair 0.0.110; worker process only, no-op elsewhere) - extends harness/_C15_lib's.
 
-    CrossHair replaces builtin `hash` by `crosshair.libimpl.builtinslib._hash`, whose docstring carries a PEP 316
-    contract; under analysis kind PEP316 every traced `hash(x)` (e.g. pathlib.PurePath.__hash__, hit by the dicts of
-    paths in files_condition.literal) may be "short-circuited": replaced by a FREE symbolic int.  A C-level dict
-    operation then sees a __hash__ that does not return an int (TypeError: __hash__ method should return an
-    integer -> a fake INTERNAL_ERROR that does not reproduce) and look-ups fork without bound.  The work-around makes
-    CrossHair always execute the body of `_hash` (the real hash): strictly more precise, nothing is assumed."""
+    CrossHair replaces the builtins `hash` and `repr` by functions of crosshair.libimpl.builtinslib (`_hash`, `_repr`)
+    whose docstrings carry PEP 316 contracts; under analysis kind PEP316 every traced call of them (e.g.
+    pathlib.PurePath.__hash__, hit by the dicts of paths in files_condition.literal; repr() in error messages) may be
+    "short-circuited" in a branch of the search: replaced by a FREE symbolic int / str.  A C-level dict operation then
+    sees a __hash__ that does not return an int (TypeError -> a fake INTERNAL_ERROR), an error message holds a free
+    string (so it "may contain" the word Traceback) - counterexamples that do not reproduce, and the decision to
+    short-circuit is a heuristic of the search, so they come and go.  The work-around makes CrossHair always execute
+    the body of its own contract-carrying replacements (the real hash / repr): strictly more precise, nothing is
+    assumed."""
     try:
         import crosshair.core as core
     except ImportError:
         return
     orig = core.consider_shortcircuit
-    if getattr(orig, '_c15_patched', False) or getattr(orig, '_c18_patched', False):
+    if getattr(orig, '_c18_patched', False):
         return
 
     def consider_shortcircuit(fn, *a, **kw):
-        if getattr(fn, '__name__', '') == '_hash' and kw.get('allow_interpretation', True):
+        if (getattr(fn, '__module__', '') or '').startswith('crosshair.') and kw.get('allow_interpretation', True):
             return None
         return orig(fn, *a, **kw)
 
     consider_shortcircuit._c18_patched = True
+    consider_shortcircuit._c15_patched = True
     core.consider_shortcircuit = consider_shortcircuit
 
 
-_chfix_hash_contract()
+_chfix_builtin_contracts()
